@@ -149,6 +149,10 @@ func (s *scanner) Length() (uint, error) {
 			length--
 		}
 	}
+	if length > uint(s.dataSize) {
+		// The last lexeme (for instance, an unfinished annotation) ends at the end of the data.
+		length = uint(s.dataSize)
+	}
 	for ; length > 0; length-- {
 		c := s.data.Byte(length - 1)
 		if !bytes.IsBlank(c) {
